@@ -118,6 +118,12 @@ type Runner struct {
 
 	lastCollector bool               // blocktxn: a compact-block collector existed for the named block before the call
 	lastState     network.VerifState // connection state after the last call (zero if the connection was abandoned)
+
+	// the Run stream (runreal.go)
+	nrun             int
+	pool             *network.OneConnection // a finished run-stream connection object that may be recycled
+	lastRunCollector bool
+	lastRunState     network.VerifState
 }
 
 func NewRunner(e *Env) *Runner { return &Runner{e: e, probes: globalProbes()} }
@@ -150,6 +156,13 @@ func (r *Runner) prepare(cs Case) *network.OneConnection {
 	for k := range c.GetBlockInProgress {
 		delete(c.GetBlockInProgress, k)
 	}
+	r.preset(c, cs)
+	return c
+}
+
+// preset puts a connection into the protocol state the case asks for (the state a version handshake
+// with a current Bitcoin Core peer leaves, unless the case says "nover").
+func (r *Runner) preset(c *network.OneConnection, cs Case) {
 	if !cs.has("nover") {
 		c.X.VersionReceived = true
 		c.Node.Version = 70016
@@ -157,8 +170,13 @@ func (r *Runner) prepare(cs Case) *network.OneConnection {
 		c.Node.Agent = "/Satoshi:27.0.0/"
 		c.Node.Height = 100
 	}
-	if cs.has("auth") {
-		c.X.Authorized = true
+	r.presetFlags(c, cs)
+}
+
+// presetFlags: the flags that are set directly whether or not the handshake is done through Run.
+func (r *Runner) presetFlags(c *network.OneConnection, cs Case) {
+	if cs.has("auth") || cs.has("trusted") {
+		c.X.Authorized = true // (in the Run stream "trusted" is reached through a real xauth, which sets it itself)
 	}
 	if cs.has("ackgot") {
 		c.X.AuthAckGot = true // the peer's authack was accepted; no AES context (VerifReset dropped it)
@@ -169,7 +187,6 @@ func (r *Runner) prepare(cs Case) *network.OneConnection {
 	if cs.has("ahr") {
 		c.X.AllHeadersReceived = true
 	}
-	return c
 }
 
 // call runs f with a recover and a time limit; it returns the panic text (with the first
